@@ -54,6 +54,9 @@ async def execute(net, hyg, plan):
         if bd:
             rng = random.Random(plan.get("seed", 0))
             w.ctl.delay = lambda op, path, n: rng.choice(bd)
+        if plan.get("slow_write"):
+            # only storing a block takes time (close, seek, open are prompt)
+            w.ctl.delay = lambda op, path, n: plan["slow_write"] if op == "write" else 0
         if plan.get("write_ack_delay"):
             w.ctl.delay_after = lambda op, path, n: plan["write_ack_delay"]
         p = RawPeer(net, 2121)
@@ -86,6 +89,10 @@ async def execute(net, hyg, plan):
                     replies.append("EOF")
                     return
                 replies.append(r.code)
+                if r.code == "226" and state["abor_sent"] and upload and "at_226" not in state:
+                    # what the back end holds at the moment the peer is told "abort successful"
+                    cur = w.tree().get(target)
+                    state["at_226"] = len(cur) if isinstance(cur, (bytes, bytearray)) else None
 
         async def data_task():
             if mode == "never":
@@ -254,6 +261,13 @@ async def execute(net, hyg, plan):
                 viol.append({"key": "download-not-a-prefix", "msg": f"{pos}: received {len(data['got'])} bytes that are not a prefix"})
             if completed and data["conn"] is not None and data["got"] != content:
                 viol.append({"key": "completed-but-truncated", "msg": f"{pos}: completion 2xx but {len(data['got'])}/{len(content)} bytes"})
+        if upload and not plan.get("no_transfer") and interrupted and state.get("at_226") is not None:
+            mon["frozen_after_abort"] = 1
+            cur = tree_now.get(target)
+            cur_n = len(cur) if isinstance(cur, (bytes, bytearray)) else None
+            if cur_n != state["at_226"]:
+                viol.append({"key": "upload-goes-on-after-abort-confirmed",
+                             "msg": f"{pos} ABOR after event {k}: the file held {state['at_226']} bytes when 226 was sent and {cur_n} bytes a few seconds later"})
         if upload and not plan.get("no_transfer"):
             payload = payload_bytes(size, 9)
             stored = tree_now.get(target)
@@ -401,6 +415,11 @@ def run_plan(plan):
     le = [e for e in info["hygiene"].serious_loop_errors()]
     if le:
         res["violations"].append({"key": "exception-reached-loop", "msg": f"{le[:2]}"})
+    # the session lives on after an abort: a task of it that fails later with nobody looking (a write that went on after the
+    # worker was cancelled, say) is something the abort left behind
+    nr = [e for e in info["hygiene"].never_retrieved() if "Server.dispatcher" not in (e.get("future") or "")]
+    if nr and not plan.get("client") and "EOF" not in (res.get("seq") or []):
+        res["violations"].append({"key": "task-left-behind-by-abort", "msg": f"{[(e.get('future') or '')[:160] + ' ' + str(e.get('exception'))[:80] for e in nr[:2]]}"})
     return res
 
 
@@ -493,6 +512,15 @@ def gen_cases(tier, seed):
     for verb in ("RETR", "STOR", "LIST"):
         cases.append({"kind": "enum", "plan": {"verb": verb, "size": 2 * bs + 5, "connect": "before", "seed": seed,
                                                "backend_delay": [0.0015], "dir_entries": 8 if verb == "LIST" else 0}})
+    # a back end whose write takes its time before it stores the block
+    for verb, size in (("STOR", 3 * bs + 17), ("APPE", 2 * bs + 1)):
+        cases.append({"kind": "enum", "stride": 2 if tier == "quick" else 1,
+                      "plan": {"verb": verb, "size": size, "connect": "before", "seed": seed, "backend_delay": [0.004], "followup": "pwd+retr",
+                               "block_size": 4096}})
+        # ... and the sender is slower still: the server waits for the next block while the last one is on its way into the store
+        cases.append({"kind": "enum", "stride": 2 if tier == "quick" else 1,
+                      "plan": {"verb": verb, "size": 3 * 4096, "connect": "before", "seed": seed, "slow_write": 0.05, "followup": "pwd+retr",
+                               "block_size": 4096, "chunk": 4096, "chunk_gap": 0.12}})
     # a back end that acknowledges a write late (the bytes are already in the file when the ABOR lands)
     for verb, size in (("STOR", 3 * bs + 17), ("APPE", 2 * bs + 1), ("STOR", 70000)):
         cases.append({"kind": "enum", "stride": 2 if tier == "quick" else 1,
